@@ -28,7 +28,7 @@ def plan(tier, seed):
         K = int(rng.integers(2, 4))
         F = int(rng.choice([33, 65, 257], p=[0.5, 0.35, 0.15] if tier == 'quick' else [0.4, 0.3, 0.3]))
         cases.append(dict(model=['cacgmm', 'cwmm'][i % 2], K=K, D=int(rng.integers(K + 1, 9)), F=F, T=int(rng.integers(60, 201)), blur=float(rng.choice([0.1, 0.2, 0.3])),
-                          iters=int(rng.choice([10, 15])), rs=[seed, 17, i]))
+                          iters=int(rng.choice([10, 15])), level=float(rng.choice([1.0, 1.0, 1e-4, 1e3, 1e-8])), sub_iterations=int(rng.choice([2, 2, 1])), rs=[seed, 17, i]))
     return cases
 
 
@@ -53,7 +53,8 @@ def run_case(case, R):
             if G.max() <= 0.9:
                 break
             A[f] = gen.cnormal(rng, (K, D))
-    S = gen.cnormal(rng, (K, F, T)) * 10 ** rng.uniform(-0.3, 0.3, size=(K, F, 1))
+    # the statement constrains relative levels only (noise 40 dB below the sources): the absolute level of the scene is free
+    S = gen.cnormal(rng, (K, F, T)) * 10 ** rng.uniform(-0.3, 0.3, size=(K, F, 1)) * case.get('level', 1.0)
     act = (owner[None, :] == np.arange(K)[:, None])                    # (K, T)
     images = np.einsum('fkd,kft->kfdt', A, S * act[:, None, :])       # (K, F, D, T)
     sig_pow = float(np.mean(np.abs(images.sum(0)) ** 2))
@@ -70,7 +71,7 @@ def run_case(case, R):
             if case['rs'][-1] % 3 == 0:
                 start = int(rng.integers(max(0, F - width - shift + 1), F - width + 1))      # the first segment is the topmost one
             lo = None; ok = True
-            for it, a, b in c16.own_plan(F, start, width, shift, 20, 2):
+            for it, a, b in c16.own_plan(F, start, width, shift, 20, case.get('sub_iterations', 2)):
                 if lo is None:
                     lo, hi = a, b; continue
                 if (max(0, min(b, hi) - max(a, lo))) * 3 < 2 * (b - a):
@@ -78,7 +79,7 @@ def run_case(case, R):
                 lo, hi = min(lo, a), max(hi, b)
             if ok:
                 break
-        al = pa.DHTVPermutationAlignment(stft_size=2 * (F - 1), segment_start=start, segment_width=width, segment_shift=shift, main_iterations=20, sub_iterations=2, similarity_metric=metric)
+        al = pa.DHTVPermutationAlignment(stft_size=2 * (F - 1), segment_start=start, segment_width=width, segment_shift=shift, main_iterations=20, sub_iterations=case.get('sub_iterations', 2), similarity_metric=metric)
     field = pa.sample_random_mapping(K, F, random_state=np.random.RandomState(int(rng.integers(2 ** 31))))
     seg = np.arange(al.segment_start, al.segment_start + al.segment_width)
     field[:, rng.permutation(seg)[:int(np.ceil(0.7 * len(seg)))]] = rng.permutation(K)[:, None]
@@ -87,7 +88,7 @@ def run_case(case, R):
     init_kft = pa.apply_mapping((1 - b) * truth + b * np.moveaxis(rng.dirichlet([1.0] * K, size=(F, T)), -1, 0), field)
     init = np.ascontiguousarray(np.transpose(init_kft, (1, 0, 2)))     # (F, K, T)
     Yt = np.ascontiguousarray(np.transpose(Y, (0, 2, 1)))             # (F, T, D)
-    info = dict(model=case['model'], K=K, D=D, F=F, T=T, blur=b, metric=metric)
+    info = dict(model=case['model'], K=K, D=D, F=F, T=T, blur=b, metric=metric, level=case.get('level', 1.0), sub_iterations=case.get('sub_iterations', 2))
     try:
         with instr.options(K=K, aff_shape=(F, K, T), weight_constant_axis=(-1,), affiliation_eps=1e-10 if case['model'] == 'cacgmm' else 0.0,
                            eigenvalue_floor=1e-10, covariance_norm='eigenvalue', mask=None):
